@@ -122,8 +122,8 @@ func dimsSection(x *h.X) {
 	if d != want {
 		x.Fail("params", "%s: tink (n h d hp a k lgw m w len1 len2 len)=%v, FIPS 205 Table 2 / section 5: %v", p.Name, d, want)
 	}
-	if s.t.PublicKeyLength() != p.PKLen() || s.t.SecretKeyLength() != p.SKLen() {
-		x.Fail("params", "%s: key lengths %d/%d want %d/%d", p.Name, s.t.PublicKeyLength(), s.t.SecretKeyLength(), p.PKLen(), p.SKLen())
+	if s.a.PublicKeyLength() != p.PKLen() || s.a.SecretKeyLength() != p.SKLen() {
+		x.Fail("params", "%s: key lengths %d/%d want %d/%d", p.Name, s.a.PublicKeyLength(), s.a.SecretKeyLength(), p.PKLen(), p.SKLen())
 	}
 	if p.D*p.Hp != p.H {
 		refFatal("%s: d*h' != h", p.Name)
